@@ -291,6 +291,12 @@ func cmdRun(args []string) int {
 	}
 	if nviol == 0 && os.Getenv("VERIF_NO_TV") == "" {
 		tvRun, tvAgree, tvNotes = translatorValidation(spec, results, open)
+		for _, n := range tvNotes {
+			if strings.Contains(n, "sequential-schedule state differs") {
+				// the extracted automata disagree with the real code on a schedule both can run: no verdict
+				inconc = append(inconc, "translator validation: "+n)
+			}
+		}
 	}
 	wall := time.Since(t0).Seconds()
 	writeEvidence(spec, tier, seed, results, wall, inconc, nviol)
@@ -567,7 +573,7 @@ func writeEvidence(spec Spec, tier string, seed int, results []*obResult, wall f
 		"states":                        totalPaths,
 		"transitions":                   totalSteps,
 		"traces_validated_against_impl": replays + tvAgree,
-		"translator_validation":         map[string]interface{}{"witness_models_replayed_natively": tvRun, "agreed": tvAgree, "notes": tvNotes, "what": "models found by the solver for vacuity witnesses are replayed through the same harness compiled natively against /repo (go test -tags verif -overlay); agreement = the native run reaches the end of the harness with no failed assertion or assumption"},
+		"translator_validation":         map[string]interface{}{"witness_models_replayed_natively": tvRun, "agreed": tvAgree, "notes": tvNotes, "what": "models found by the solver for vacuity witnesses are replayed through the same harness compiled natively against /repo (go test -tags verif -overlay); agreement = the native run reaches the end of the harness with no failed assertion or assumption; for interleaving obligations the final shared state (every written cell, pointer cells by target, channel token counts) that the extracted automata predict for a sequential schedule is compared with a native run of the same thread bodies in that order"},
 		"samples":                       samples,
 		"explanation":                   "bounded symbolic execution of the real functions (SSA from /repo working tree) with SMT-decided assertions; see obligations[] for bounds",
 		"exhaustive":                    len(inconc) == 0,
@@ -827,6 +833,116 @@ func TestVerifTV(t *testing.T) {
 				}
 				notes = append(notes, it.ob+": native run differs: "+line)
 			}
+		}
+		os.RemoveAll(tmp)
+	}
+	// interleaving obligations: the final shared state predicted by the extracted automata for
+	// a sequential schedule (threads one after the other) against a native run of the same
+	// thread bodies in that order
+	for _, r := range results {
+		if r == nil || r.BMC == nil || r.BMC.TV == nil || r.Status != "discharged" {
+			continue
+		}
+		tv := r.BMC.TV
+		run++
+		if tv.Result != "sat" {
+			notes = append(notes, r.Spec.Name+": no sequential schedule found for translator validation ("+tv.Result+")")
+			continue
+		}
+		tmp, err := os.MkdirTemp("", "verif-tvb-")
+		if err != nil {
+			continue
+		}
+		mf := filepath.Join(tmp, "model.json")
+		data, _ := json.Marshal(map[string]interface{}{"Model": map[string]uint64{}, "Open": []string{}, "Params": r.Params})
+		os.WriteFile(mf, data, 0o644)
+		var body strings.Builder
+		body.WriteString("\n\nimport (\n\t\"fmt\"\n\t\"os\"\n\t\"testing\"\n\t\"unsafe\"\n)\n\n")
+		fmt.Fprintf(&body, "func TestVerifTVB(t *testing.T) {\n\tos.Setenv(\"VERIF_MODEL\", %q)\n\tvmodel = nil\n\tshared := %s()\n\t_ = unsafe.Pointer(nil)\n", mf, r.Spec.BMC.Setup)
+		fmt.Fprintf(&body, "\tptr := func(p unsafe.Pointer) string {\n\t\tswitch p {\n\t\tcase nil:\n\t\t\treturn \"nil\"\n")
+		for _, tg := range tv.Targets {
+			if strings.Contains(tg, "$") {
+				continue
+			}
+			fmt.Fprintf(&body, "\t\tcase unsafe.Pointer(&%s):\n\t\t\treturn %q\n", strings.Replace(tg, "shared", "(*shared)", 1), "&"+tg)
+		}
+		fmt.Fprintf(&body, "\t\t}\n\t\treturn \"?\"\n\t}\n\t_ = ptr\n")
+		for _, t := range tv.Order {
+			fmt.Fprintf(&body, "\t%s(shared, %d, %d)\n", r.Spec.BMC.Threads[t], t, int64(tv.Choices[t]))
+		}
+		var names []string
+		for n := range tv.Cells {
+			names = append(names, n)
+		}
+		sort.Strings(names)
+		for _, n := range names {
+			if _, scalar := tv.Width[n]; scalar {
+				fmt.Fprintf(&body, "\tfmt.Printf(\"VTVB %s=%%d\\n\", uint64(%s))\n", n, n)
+			} else {
+				// several names can share an address (a struct and its first field): test the predicted target first
+				pred := tv.Cells[n]
+				if strings.HasPrefix(pred, "&") && !strings.Contains(pred, "$") {
+					tgt := strings.Replace(pred[1:], "shared", "(*shared)", 1)
+					fmt.Fprintf(&body, "\tif unsafe.Pointer(%s) == unsafe.Pointer(&%s) {\n\t\tfmt.Printf(\"VTVB %s=%%s\\n\", %q)\n\t} else {\n\t\tfmt.Printf(\"VTVB %s=%%s\\n\", ptr(unsafe.Pointer(%s)))\n\t}\n", n, tgt, n, pred, n, n)
+				} else {
+					fmt.Fprintf(&body, "\tfmt.Printf(\"VTVB %s=%%s\\n\", ptr(unsafe.Pointer(%s)))\n", n, n)
+				}
+			}
+		}
+		var chans []string
+		for n := range tv.Chans {
+			chans = append(chans, n)
+		}
+		sort.Strings(chans)
+		for _, n := range chans {
+			fmt.Fprintf(&body, "\tfmt.Printf(\"VTVB len(%s)=%%d\\n\", len(%s))\n", n, n)
+		}
+		body.WriteString("}\n")
+		_, out := runNativeTest(tmp, r.Spec.Pkg, body.String(), "^TestVerifTVB$", mf)
+		got := map[string]string{}
+		for _, l := range strings.Split(out, "\n") {
+			if strings.HasPrefix(l, "VTVB ") {
+				kv := strings.SplitN(strings.TrimPrefix(l, "VTVB "), "=", 2)
+				if len(kv) == 2 {
+					got[kv[0]] = strings.TrimSpace(kv[1])
+				}
+			}
+		}
+		var diffs []string
+		for _, n := range names {
+			want := tv.Cells[n]
+			g, ok := got[n]
+			if !ok {
+				diffs = append(diffs, n+": no native value")
+				continue
+			}
+			if w, scalar := tv.Width[n]; scalar {
+				var gv, wv uint64
+				fmt.Sscan(g, &gv)
+				fmt.Sscan(want, &wv)
+				if w < 64 {
+					gv &= (uint64(1) << uint(w)) - 1
+				}
+				if gv != wv {
+					diffs = append(diffs, fmt.Sprintf("%s: automata %d, native %d", n, wv, gv))
+				}
+			} else if g != want {
+				diffs = append(diffs, fmt.Sprintf("%s: automata %s, native %s", n, want, g))
+			}
+		}
+		for _, n := range chans {
+			g, ok := got["len("+n+")"]
+			if !ok || g != fmt.Sprint(tv.Chans[n]) {
+				diffs = append(diffs, fmt.Sprintf("len(%s): automata %d, native %s", n, tv.Chans[n], g))
+			}
+		}
+		if len(diffs) == 0 && len(got) > 0 {
+			agree++
+		} else {
+			if len(got) == 0 {
+				diffs = append(diffs, "no native outcome ("+lastLines(out, 4)+")")
+			}
+			notes = append(notes, r.Spec.Name+": sequential-schedule state differs: "+strings.Join(diffs, "; "))
 		}
 		os.RemoveAll(tmp)
 	}
